@@ -800,6 +800,8 @@ func (c *EvalCtx) closed(v Term, t types.Type) {
 		c.side = append(c.side, le(app("own", SInt, v), c.st.alloc))
 	case *types.Slice:
 		c.side = append(c.side, le(app("own", SInt, app("sbase", SInt, v)), c.st.alloc))
+		// a slice value held in memory is a slice: 0 <= len <= cap
+		c.side = append(c.side, c.u.typeFacts(v, t))
 	}
 }
 
